@@ -74,6 +74,9 @@ func vSymRecovery(e *vEnv, h uint32) *vRecovery {
 	r := &vRecovery{id: vU64("rec.id")}
 	mk := func(tag string, t MessageType) *vPayload {
 		p := vSymPayload(tag, t, h)
+		// nobody can forge the receiver's own payloads (DESIGN §4); genuine own payloads
+		// coming back are the re-delivery case of C11
+		vAssume(int(p.vidx) != e.my)
 		if t == PrepareRequestType {
 			p.txs = vSymTxs(tag, vParam("mntx"))
 		}
@@ -107,6 +110,22 @@ func H_step() {
 	api := vParam("api")
 	e.api = api
 	vAssume(vpInv(e, false))
+	// optional narrowing of the pre-state (parameters; absent = no narrowing)
+	if vParam("decided") == 1 {
+		vAssume(d.blockProcessed)
+	} else if vParam("decided") == 2 {
+		vAssume(!d.blockProcessed)
+	}
+	if vParam("watch") == 1 {
+		vAssume(e.watchFlag)
+	} else if vParam("watch") == 2 {
+		vAssume(!e.watchFlag)
+	}
+	if vParam("amevon") == 1 {
+		vAssume(d.isAntiMEVExtensionEnabled())
+	} else if vParam("amevon") == 2 {
+		vAssume(!d.isAntiMEVExtensionEnabled())
+	}
 
 	// pre-state facts for event-time obligations
 	e.preBlockProcessed, e.prePreBlockProcessed = d.blockProcessed, d.preBlockProcessed
